@@ -256,6 +256,15 @@ func (ef *Effects) staticType(pkg string, env map[string]types.Type, e Expr) typ
 		if n.Fun == "old" && len(n.Args) == 1 {
 			return ef.staticType(pkg, env, n.Args[0])
 		}
+		pf := ef.eng.pures[pkg+"."+n.Fun]
+		if pf == nil {
+			pf = ef.eng.pures[n.Fun]
+		}
+		if pf != nil && pf.Ret != "" {
+			if st, err := ef.eng.resolveSpecType(pf.Pkg, pf.Ret); err == nil {
+				return st.gt
+			}
+		}
 	}
 	return nil
 }
